@@ -41,7 +41,7 @@ type c08scan struct {
 	Errs  []string
 }
 
-var c08types = []uint32{pg.OIDBool, pg.OIDInt2, pg.OIDInt4, pg.OIDInt8, pg.OIDFloat4, pg.OIDFloat8, pg.OIDText, pg.OIDVarchar, pg.OIDBytea, pg.OIDUUID, pg.OIDOid, pg.OIDDate, pg.OIDTimestamp, pg.OIDTimestamptz}
+var c08types = []uint32{pg.OIDInt4Array, pg.OIDTextArray, pg.OIDBool, pg.OIDInt2, pg.OIDInt4, pg.OIDInt8, pg.OIDFloat4, pg.OIDFloat8, pg.OIDText, pg.OIDVarchar, pg.OIDBytea, pg.OIDUUID, pg.OIDOid, pg.OIDDate, pg.OIDTimestamp, pg.OIDTimestamptz}
 
 func c08gen(rng *core.Rng, big bool) c08case {
 	k := c08case{}
@@ -90,8 +90,22 @@ func c08gen(rng *core.Rng, big bool) c08case {
 		}
 		if typed {
 			v := genValue(rng, o)
+			if o == pg.OIDInt4Array && rng.Intn(3) == 0 {
+				// many short elements: the densest text form an array can have (two bytes per element)
+				a := make([]int32, 4+rng.Intn(20))
+				for j := range a {
+					a[j] = int32(rng.Intn(10))
+				}
+				v = a
+			}
 			k.PVals = append(k.PVals, v)
-			k.PRaw = append(k.PRaw, pg.Encode(o, f, v))
+			raw := pg.Encode(o, f, v)
+			if a, ok := v.([]int32); ok && f == 0 && len(a) > 0 && rng.Bool() {
+				// the same array with an explicit dimension decoration (lower bound 0 or -2)
+				lb := core.Pick(rng, []int{0, -2, 1, 5})
+				raw = []byte(fmt.Sprintf("[%d:%d]=%s", lb, lb+len(a)-1, raw))
+			}
+			k.PRaw = append(k.PRaw, raw)
 			continue
 		}
 		var raw []byte
